@@ -147,8 +147,15 @@ Definition rm_fresh (s : rs) : bool :=
   (match r_res s with [] => true | _ => false end) && (match r_slots s with [] => true | _ => false end) &&
   forallb (fun e => (fst (snd e) =? 0) && (0 <=? snd (snd e))) (r_pools s).
 
+(** nothing generated, delivered or lost yet; nothing is downstream of a sink *)
+Definition census_fresh (x : dev) : bool :=
+  (match d_made x with [] => true | _ => false end) && (match d_delivered x with [] => true | _ => false end) &&
+  (match d_lost x with [] => true | _ => false end) &&
+  (match d_kind x with KSink => (match d_down x with [] => true | _ => false end) | _ => true end).
+
 Definition wf_worldb (w : fw) : bool :=
-  forallb (fun e => pristine (snd e)) (f_devs w) && nodupb (map fst (f_devs w)) && rm_fresh (f_rm w).
+  forallb (fun e => pristine (snd e)) (f_devs w) && nodupb (map fst (f_devs w)) && rm_fresh (f_rm w) &&
+  forallb (fun e => census_fresh (snd e)) (f_devs w).
 
 (** System._initialize_assets after ResourceManager.initialize: every asset in creation order *)
 Definition init_dev (fuel : nat) (nw : Z) (w : fw) (d : Z) : fw :=
